@@ -573,35 +573,18 @@ func (in *interp) needW(o Op) *wtxn {
 }
 
 func (in *interp) newObj(o Op) *Obj {
+	// Key sets are passed on as generated, duplicates included: an indexer may
+	// yield the same key twice and the indexes must cope (the model de-duplicates).
 	obj := &Obj{N: in.step*4 + 1, ID: cloneBytes(o.ID), Val: o.Val}
 	for _, x := range o.Us {
 		obj.Us = append(obj.Us, cloneBytes(x))
 	}
-	seen := map[string]bool{}
 	for _, x := range o.Tags {
-		if !seen[string(x)] {
-			seen[string(x)] = true
-			obj.Tags = append(obj.Tags, cloneBytes(x))
-		}
+		obj.Tags = append(obj.Tags, cloneBytes(x))
 	}
-	seenP := map[P]bool{}
 	for _, p := range o.Pfx {
-		p = p.norm()
-		if !seenP[p] {
-			seenP[p] = true
-			obj.Pfx = append(obj.Pfx, p)
-		}
+		obj.Pfx = append(obj.Pfx, p.norm())
 	}
-	// unique secondary components must be distinct too
-	seenU := map[string]bool{}
-	us := obj.Us[:0]
-	for _, x := range obj.Us {
-		if !seenU[string(x)] {
-			seenU[string(x)] = true
-			us = append(us, x)
-		}
-	}
-	obj.Us = us
 	return obj
 }
 
